@@ -237,6 +237,16 @@ channel.send(len(channel.gateway._channelfactory._channels))
         for i in range(200):
             x = gw.remote_exec("channel.send(1)"); x.receive(T); x.waitclose(T); del x
         if len(gw._channelfactory._channels) > n0 + 2: bad.append(f"channel table grew from {n0} to {len(gw._channelfactory._channels)}")
+        # conversations that end in a raising callback of a collected channel object are forgotten as well
+        ctl = gw.remote_exec("while 1:\n c = channel.receive()\n if c is None: break\n try: c.send(1)\n except OSError: pass\n del c")
+        nc0 = len(gw._channelfactory._callbacks)
+        def failing(x):
+            raise ValueError("boom")
+        for i in range(20):
+            y = gw.newchannel(); y.setcallback(failing); ctl.send(y); del y
+        ctl.send(None); ctl.waitclose(T)
+        time.sleep(0.3)
+        if len(gw._channelfactory._callbacks) > nc0: bad.append(f"callback table grew from {nc0} to {len(gw._channelfactory._callbacks)} over 20 conversations ended by a raising callback of a dropped channel")
         # a channel sent to a callback-only channel whose object was dropped
         got = []
         cc = gw.remote_exec("channel.receive(); c = channel.gateway.newchannel(); channel.send(c); c.send(7)")
